@@ -1,7 +1,8 @@
 (* C10/Properties.v — streamed parsing ignores chunking; the callback gets every byte.
    Statements only; proofs in C09/Proofs.v and C10/Proofs.v.  [drive], [spec]: C09/Model.v. *)
 From Coq Require Import ZArith List Bool.
-From RM Require Import Base.Word C08.Model C11.Model C09.Model C09.Grammar C09.Driver C09.Proofs C09.ProofsBytes C10.Model C10.Proofs C10.ProofsCache C10.ProofsAsync C09.ProofsFinish C09.ProofsFinal.
+From RM Require Import Base.Word C08.Model C11.Model C09.Model C09.Grammar C09.Driver C09.Proofs C09.ProofsBytes C10.Model C10.Proofs C10.ProofsCache C10.ProofsAsync C09.ProofsFinish C09.ProofsFinal C10.Stream C10.ProofsStream C10.Driver C10.ProofsStreamTrace.
+From RM Require Gen.C10Stream.
 From RM Require C09.Pins.
 Import ListNotations.
 Open Scope Z_scope.
@@ -189,3 +190,119 @@ Example c10_nonvacuous_async_run :
   let '(o, t) := run_async ex_lines 0 [20; 1; 41] in
   (o_kind o, o_cb o, o_files o, 0 <? tr_events t) = (0, 62, 1, true).
 Proof. vm_compute. reflexivity. Qed.
+
+(* ================================================================== round 5: parse_async over ANY body.
+   [drive_stream] (C10/Stream.v) is parse_async as a model of its own: the body of the reqwest::Response is a script of
+   events — chunks of any size, EMPTY chunks, a failure at any point ([SFail]: response.chunk() returns Err) — and the
+   refill block in front of the read is modelled as it is in the source since the F-C10c fix (empty chunks are skipped;
+   before the fix an empty chunk read as 0 bytes = end of input: the parse ended early with Ok and a truncated table).
+   [delivered script] = the bytes the body hands over before it ends or fails; the input IS those bytes. *)
+
+(* All inputs, all bodies: parse_async returns (no panic, within the linear fuel), the callback got exactly the first
+   total_consumed bytes of what was delivered, and all of it when the result is Ok. *)
+Theorem c10_stream_total_prefix :
+  forall (L : Type) (llen : L -> Z) (PS : Type) (init_ps : PS)
+         (recog : PS -> L -> PS + Z) (bump : PS -> PS) (lineno : PS -> Z),
+    (forall l, 1 <= llen l) ->
+    forall (lines : list L) (tail : Z) (script : list sev),
+    delivered script = input_len L llen lines tail ->
+    exists r x, drive_stream L llen PS init_ps recog bump lineno lines tail script = Ret (r, x) /\
+      cbsum (core x) = total (core x) /\ 0 <= total (core x) <= input_len L llen lines tail /\
+      (forall p, r = ROk p -> cbsum (core x) = input_len L llen lines tail).
+Proof. exact stream_total. Qed.
+Print Assumptions c10_stream_total_prefix.
+
+(* Chunk independence of parse_async at full strength: lines shorter than 80 KiB => for EVERY body the outcome is
+   [spec_stream]: the schedule-free [spec] when the body is delivered in full (whatever the chunk sizes, wherever the
+   empty chunks), and when the body fails: the error of the first delivered complete line the recogniser rejects,
+   else the load error — never Ok. *)
+Theorem c10_stream_chunk_independent :
+  forall (L : Type) (llen : L -> Z) (PS : Type) (init_ps : PS)
+         (recog : PS -> L -> PS + Z) (bump : PS -> PS) (lineno : PS -> Z),
+    (forall l, 1 <= llen l) ->
+    forall (lines : list L) (tail : Z),
+    short_lines llen lines tail ->
+    forall script : list sev, delivered script = input_len L llen lines tail ->
+    exists x, drive_stream L llen PS init_ps recog bump lineno lines tail script
+              = Ret (spec_stream L PS init_ps recog lineno lines tail script, x).
+Proof. exact stream_is_spec. Qed.
+Print Assumptions c10_stream_chunk_independent.
+
+Theorem c10_stream_any_two_bodies :
+  forall (L : Type) (llen : L -> Z) (PS : Type) (init_ps : PS)
+         (recog : PS -> L -> PS + Z) (bump : PS -> PS) (lineno : PS -> Z),
+    (forall l, 1 <= llen l) ->
+    forall (lines : list L) (tail : Z), short_lines llen lines tail ->
+    forall s1 s2, delivered s1 = input_len L llen lines tail -> delivered s2 = input_len L llen lines tail ->
+    fails s1 = false -> fails s2 = false ->
+    forall r1 x1 r2 x2,
+    drive_stream L llen PS init_ps recog bump lineno lines tail s1 = Ret (r1, x1) ->
+    drive_stream L llen PS init_ps recog bump lineno lines tail s2 = Ret (r2, x2) ->
+    r1 = r2 /\ r1 = spec L PS init_ps recog lineno lines tail.
+Proof. exact stream_two_scripts. Qed.
+Print Assumptions c10_stream_any_two_bodies.
+
+Theorem c10_stream_failed_body_never_ok :
+  forall (L : Type) (llen : L -> Z) (PS : Type) (init_ps : PS)
+         (recog : PS -> L -> PS + Z) (bump : PS -> PS) (lineno : PS -> Z),
+    (forall l, 1 <= llen l) ->
+    forall (lines : list L) (tail : Z), short_lines llen lines tail ->
+    forall script, delivered script = input_len L llen lines tail -> fails script = true ->
+    forall r x, drive_stream L llen PS init_ps recog bump lineno lines tail script = Ret (r, x) ->
+    forall p, r <> ROk p.
+Proof. exact stream_failed_never_ok. Qed.
+Print Assumptions c10_stream_failed_body_never_ok.
+
+(* The refill block of the model is the one assembled from the guard and the match arms that translate/c10_stream.py
+   extracts from parse_async's source (coq/Gen/C10Stream.v): which chunks are skipped, what the end of the body gives,
+   that a failed chunk ends the parse. *)
+Theorem c10_stream_refill_is_source :
+  forall (cur : Z) (pend : list sev), refill cur pend = refill_src cur pend.
+Proof. exact refill_is_source. Qed.
+Print Assumptions c10_stream_refill_is_source.
+
+(* What the correspondence run executes ([run_stream], with the callback trace) reports [drive_stream]. *)
+Theorem c10_run_stream_is_drive_stream :
+  forall lines tail script,
+    drive_stream_c lines tail script =
+    match fst (iter_tr_stream (fuel_for rle cllen lines tail)
+                              (init_stream rle cllen pst init_pst lines tail script) init_tr) with
+    | SNext _ => OutOfFuel
+    | SDone r x => Ret (r, x)
+    | SPanic t => Panic t
+    end.
+Proof. exact run_stream_is_drive_stream. Qed.
+Print Assumptions c10_run_stream_is_drive_stream.
+
+(* non-vacuity.  The 62-byte file of ex_lines; bodies: [20; EMPTY; 1; EMPTY; EMPTY; 41], then the same with a failure
+   after 21 bytes (only `MODULE a b c d` is complete by then), and a failure before anything is delivered. *)
+Example c10_nonvacuous_stream_empty_chunks :
+  let script := [SChunk 20; SChunk 0; SChunk 1; SChunk 0; SChunk 0; SChunk 41] in
+  delivered script = input_len rle cllen ex_lines 0 /\ fails script = false /\
+  match run_stream ex_lines 0 script with
+  | (o, t) => (o_kind o, o_cb o, o_files o, o_publics o, o_skind o)
+  end = (0, 62, 1, 1, 0).
+Proof. vm_compute. repeat split; reflexivity. Qed.
+
+Definition ex_lines_21 : list rle := [ bl [77;79;68;85;76;69;32;97;32;98;32;99;32;100] ].   (* MODULE a b c d *)
+Example c10_nonvacuous_stream_failure :
+  let script := [SChunk 15; SChunk 0; SChunk 6; SFail; SChunk 41] in
+  delivered script = input_len rle cllen ex_lines_21 6 /\ fails script = true /\
+  short_lines cllen ex_lines_21 6 /\
+  match run_stream ex_lines_21 6 script with
+  | (o, t) => (o_kind o, o_code o, o_cb o, o_skind o, o_scode o)
+  end = (1, 8, 15, 1, 8).
+Proof.
+  vm_compute. repeat split; try reflexivity.
+  - repeat constructor. discriminate.
+Qed.
+
+(* a rejected line among the delivered ones wins over the failure of the body: `FOO` is not a record *)
+Example c10_nonvacuous_stream_failure_after_bad_line :
+  let lines := [ bl [77;79;68;85;76;69;32;97;32;98;32;99;32;100]; bl [70;79;79] ] in
+  let script := [SChunk 19; SFail] in
+  delivered script = input_len rle cllen lines 0 /\
+  match run_stream lines 0 script with
+  | (o, t) => (o_kind o, o_code o, o_line o, o_skind o, o_scode o, o_sline o)
+  end = (1, 1, 1, 1, 1, 1).
+Proof. vm_compute. split; reflexivity. Qed.
